@@ -278,11 +278,25 @@ Definition swap_explicit_implicit (k : iclass) : iclass :=
 Definition all_newer (ins : list input) (outs : list fileinfo) : Prop :=
   forall o v, In o outs -> In v (requested ins) -> stamped v = true -> ts_lt (mod_time (output_info v)) (mod_time o).
 
-(* ---- what getCommandHash(command) hashes (repair 66b1a7c) ----
+(* ---- what getCommandHash(command) hashes (repairs 66b1a7c, c54418f) ----
    CommandSignature(commandString).combine(numExplicit).combine(numImplicit).combine(path) for EVERY input, in the
-   order explicit, implicit, order-only.  The signature function itself is opaque; this is its argument. *)
-Record cmd_def := mkDef { d_command : bytes; d_explicit : list bytes; d_implicit : list bytes; d_order_only : list bytes }.
-Definition hash_material (d : cmd_def) : bytes * nat * nat * list bytes :=
-  (d_command d, length (d_explicit d), length (d_implicit d), d_explicit d ++ d_implicit d ++ d_order_only d).
-(* ... and before the repair *)
+   order explicit, implicit, order-only, then .combine(numOutputs).combine(path) for every output.
+   The signature function itself is opaque; this is its argument. *)
+Record cmd_def := mkDef { d_command : bytes; d_explicit : list bytes; d_implicit : list bytes; d_order_only : list bytes;
+                          d_outputs : list bytes }.
+Definition hash_material (d : cmd_def) : bytes * nat * nat * list bytes * nat * list bytes :=
+  (d_command d, length (d_explicit d), length (d_implicit d), d_explicit d ++ d_implicit d ++ d_order_only d,
+   length (d_outputs d), d_outputs d).
+(* ... before 66b1a7c (command line only) and before c54418f (no outputs) *)
 Definition hash_material_unrepaired (d : cmd_def) : bytes := d_command d.
+Definition hash_material_no_outputs (d : cmd_def) : bytes * nat * nat * list bytes :=
+  (d_command d, length (d_explicit d), length (d_implicit d), d_explicit d ++ d_implicit d ++ d_order_only d).
+
+(* ---- start(): which declared inputs reach the engine (ti.request / ti.mustFollow) ----
+   In default mode a PHONY statement that lists one of its own outputs among its inputs (CMake writes such statements)
+   does not request that input; every other statement, and every statement under --strict, requests all of them, so a
+   declared self-reference reaches the engine and is reported as a cycle. *)
+Definition skips_cyclic_input (strict phony : bool) (outs : list bytes) (i : bytes) : bool :=
+  negb strict && phony && mem_bytes i outs.
+Definition start_keys (strict phony : bool) (outs ins : list bytes) : list bytes :=
+  filter (fun i => negb (skips_cyclic_input strict phony outs i)) ins.
